@@ -99,22 +99,26 @@ def serviceAttrs (s : Service) : Errs :=
   optField "type" s.type Rx.serviceType ++ optField "value" s.value Rx.serviceValue ++
   serviceArgs s ++ serviceCalls s ++ serviceFields s ++ serviceTags s
 
+/-- the duplicate-getter bookkeeping of one non-todo service: the error (if the getter is already
+claimed) and the updated table getter → first claimant -/
+def dupCheck (seen : List (String × String)) (n : String) (g : Option String) : Errs × List (String × String) :=
+  match g with
+  | none => ([], seen)
+  | some g => match seen.lookup g with
+    | some prev => (["getter: " ++ q g ++ " is already used by " ++ q prev], seen)
+    | none => ([], (g, n) :: seen)
+
+def servicesStep (acc : Errs × List (String × String)) (ns : String × Service) : Errs × List (String × String) :=
+  let nameErr := if rx Rx.yamlToken ns.1 then [] else ["invalid name"]
+  if ns.2.todo.getD false then (acc.1 ++ Errs.pfx (q ns.1 ++ ": ") nameErr, acc.2)
+  else
+    let d := dupCheck acc.2 ns.1 ns.2.getter
+    (acc.1 ++ Errs.pfx (q ns.1 ++ ": ") (nameErr ++ serviceAttrs ns.2 ++ d.1), d.2)
+
 /-- `ValidateServices`: services in sorted order; a non-todo service is checked attribute-wise and
 its getter must not have been claimed by an earlier (in sorted order) non-todo service. -/
 def validateServices (i : Input) : Errs :=
-  let step := fun (acc : Errs × List (String × String)) (ns : String × Service) =>
-    let (errs, seen) := acc
-    let (n, s) := ns
-    let nameErr := if rx Rx.yamlToken n then [] else ["invalid name"]
-    if s.todo.getD false then (errs ++ Errs.pfx (q n ++ ": ") nameErr, seen)
-    else
-      let (dup, seen') := match s.getter with
-        | none => ([], seen)
-        | some g => match seen.lookup g with
-          | some prev => (["getter: " ++ q g ++ " is already used by " ++ q prev], seen)
-          | none => ([], (g, n) :: seen)
-      (errs ++ Errs.pfx (q n ++ ": ") (nameErr ++ serviceAttrs s ++ dup), seen')
-  Errs.pfx "services: " ((AMap.sorted i.services).foldl step ([], [])).1
+  Errs.pfx "services: " ((AMap.sorted i.services).foldl servicesStep ([], [])).1
 
 /-! decorators -/
 def validateDecorators (i : Input) : Errs :=
